@@ -38,4 +38,20 @@ CHECKS["C12"] = {
     "note": TRUSTED + "Not decided: 'each with its own data' for mixed kinds (C03 finding F3); Bevy's FIFO command application.",
 }
 
+CHECKS["C01"] = {
+    "technique": "sibling cross-check (kind graph) extracted from MIR: reactor_type / register / revoke arm / dispatch loops per trigger kind; loop-shape rules (one command per element, single exit, not skippable) with canonical collection sources",
+    "text": "Decides that the register, revoke, schedule and reactor_type siblings of every trigger kind agree on table, sub-list, key type and reaction variant, that kinds do not share targets, that every dispatch loop queues exactly one command per registration with no early exit and cannot be skipped while its list is non-empty, and that the entity-scoped filter compares the whole reaction type.",
+    "note": TRUSTED + "Not decided: which registrations are live at a given instant over arbitrary histories; Bevy applying the queued commands.",
+}
+CHECKS["C05"] = {
+    "technique": "symbolic length decomposition vs. iteration sources (multiset equality of canonical collection sources), dominator rule for the zero-listener arm, provenance of every tracker end() result, path counting in the abort helper",
+    "text": "Decides that the reader count equals the number of commands queued (same lists summed and iterated, one command per element, no early exit), that a payload is spawned only if it will be read, that every end()/abort passes the payload entity to the release helper exactly once and that the helper decrements by one and despawns only at zero.",
+    "note": TRUSTED + "Not decided: listeners revoked between scheduling and running; entity counts at quiescence.",
+}
+CHECKS["C06"] = {
+    "technique": "A4 variant-arm association + shared kind graph; loop/index provenance in each revoke_* (enumerate index of the element compared equal); closure edge conditions in EntityReactors::remove; call-graph reachability for deferral; provenance of world-reactor system ids",
+    "text": "Decides that revocation dispatch is exhaustive and agrees with registration, removes exactly the matching entry and stops, edits the tables immediately (no deferral reachable), tolerates dead or absent entries without panicking, and that world reactors revoke with the id and triggers they registered.",
+    "note": TRUSTED + "Not decided: command order relative to the next trigger (Bevy); duplicate registrations of one trigger.",
+}
+
 NOT_APPLICABLE = {}
